@@ -313,6 +313,36 @@ def rule_m(ck, prog, mg, gs):
         deep = Summaries(prog)
         ck.ob("M", f"returned=authenticated:{mname}", (VCH, fld) in _ret_fields(m, deep),
               f"{mname} returns the values parsed together with the opening it authenticated", loc=m.loc())
+    # the opened values that are kept are kept together with the opening that authenticates them
+    for cname in ("winter_verifier::channel::TraceQueries", "winter_verifier::channel::ConstraintQueries"):
+        ctor = prog.fn(cname + "::new")
+        ck.saw(ctor)
+        gf = flow(ctor)
+        adt = prog.adt(cname)
+        flds = adt["variants"][0]["fields"]
+        proof_f = [i for i, fd in enumerate(flds) if "BatchMerkleProof" in fd["ty"]]
+        value_f = [i for i, fd in enumerate(flds) if "Table<" in fd["ty"]]
+        if not proof_f or not value_f:
+            raise AnchorError(f"{cname}: expected a BatchMerkleProof field and Table fields")
+        # std containers / Result plumbing carry the value along; workspace computations (other than Table::merge) do not
+        through = lambda tt: V.transparent(tt) or (callee_name(tt) or "").startswith(("alloc::", "core::")) or (callee_name(tt) or "").endswith("Table::merge")
+        found = False
+        for b, i, st in ctor.assigns():
+            rv = st["rv"]
+            if rv["k"] != "agg" or rv.get("adt") != cname:
+                continue
+            found = True
+
+            def parses(idx):
+                w = gf.walk(ops=[rv["ops"][j] for j in idx], at=(b, i), through=through)
+                return {n[1] for n in w if n[0] == "c" and (callee_name(ctor.term(n[1])) or "").endswith("Queries::parse")}
+            pp, pv = parses(proof_f), parses(value_f)
+            ck.ob("M", f"openings-kept-with-values:{cname.split('::')[-1]}", bool(pv) and pv <= pp,
+                  f"{cname.split('::')[-1]}::new keeps, for every Queries::parse whose table it keeps, the Merkle opening of the same parse "
+                  f"(values kept from {len(pv)} parse site(s), openings kept from {len(pp)})", loc=ctor.loc(b, i),
+                  detail=None if pv <= pp else f"values of the parse at {[ctor.loc(x, T) for x in sorted(pv - pp)]} are used without their opening")
+        if not found:
+            raise AnchorError(f"{cname}::new does not construct {cname}")
     # query positions handed to the three readers share one origin (checked in C04 E3.used)
 
 
